@@ -24,6 +24,7 @@ class C03(rt.RoundTrip):
 
         if self.tier == "thorough":
             full = self.all_options((2, 0, 1))
+            full = full + [dict(o, septab=True) for o in self.all_options((2,))]
             return core.Concat(rt.OptSpace(al.ir_space(self.tier), full),
                                rt.OptSpace(al.S_B((2,)), [dict(o, ftnone=True) for o in self.all_options((2,))]))
         full = self.all_options((2,))
@@ -36,6 +37,9 @@ class C03(rt.RoundTrip):
         # collision pairs x every combination; plus the "name and type taken from the IR" call form (function_name=None,
         # function_type=None) for each function type
         qn = [dict(o, ftnone=True) for o in qb]
+        # one deviation from the default emitter options: emit_separating_tab
+        qa = qa + [dict(o, septab=True) for o in qa[:2]]
+        qb = qb + [dict(qb[1], septab=True)]
         return core.Concat(rt.OptSpace(al.S_A(), qa), rt.OptSpace(al.S_B(), qb), rt.OptSpace(al.S_D(), full),
                            rt.OptSpace(al.S_B((2,)), qn))
 
